@@ -49,6 +49,8 @@ def apiAttrT : ApiAttr → Term
   | .clusterList l => tag "cluster-list" [list (l.map astrT)]
   | .largeCommunities l => tag "large-communities" [list (l.map fun t => list [nat t.1, nat t.2.1, nat t.2.2])]
   | .extCommunities l => tag "ext-communities" [list (l.map extcomT)]
+  | .mpReach fam nhs => tag "mp-reach" [(match fam with | none => sym "none" | some (a, s) => list [nat a, nat s]),
+      list (nhs.map astrT)]
 
 def outT {α} (f : α → Term) : Out α → Term
   | .ok a => tag "ok" [f a]
@@ -181,6 +183,8 @@ def apiAttrOf? : Term → Option ApiAttr
   | .list [.atom "cluster-list", l] => (asListOf? astrOf? l).map .clusterList
   | .list [.atom "large-communities", l] => (asListOf? tripleOf? l).map .largeCommunities
   | .list [.atom "ext-communities", l] => (asListOf? extcomOf? l).map .extCommunities
+  | .list [.atom "mp-reach", .atom "none", l] => do pure (.mpReach none (← asListOf? astrOf? l))
+  | .list [.atom "mp-reach", .list [a, s], l] => do pure (.mpReach (some (← asNat? a, ← asNat? s)) (← asListOf? astrOf? l))
   | _ => none
 
 def outOf? {α} (f : Term → Option α) : Term → Option (Out α)
